@@ -80,6 +80,21 @@ def gen_desc(rng):
             desc["impls"].append({"protocol": "can", "type": nm, "name": nm, "signals": [],
                                   "fields": [("id", 100 + q), ("device", "ecu"), ("bus", ["powertrain", "chassis", "body"][q])]})
         return desc, target, False
+    if rng.random() < 0.12:
+        # big-endian signals on fields that do not start on a byte boundary or are narrower than a byte, in a message that fits the frame
+        # (or just does not): whatever the generator does with them, no emitted signal may leave its message or lie over another
+        target = rng.choice([40, 48, 56, 60, 63, 64, 64, 64, 65, 68])
+        fields, total, j = [], 0, 0
+        while total < target:
+            w = min(target - total, rng.choice([3, 4, 4, 5, 8, 8, 12, 16, 16, 24]))
+            fields.append({"name": f"f{j}", "id": j, "type": (rng.choice(["u", "u", "i"]), w)}); total += w; j += 1
+        sigs = [{"name": fl["name"], "fields": [("endianess", "big")]} for fl in fields if rng.random() < 0.5] or \
+               [{"name": fields[-1]["name"], "fields": [("endianess", "big")]}]
+        desc["structs"].append({"name": "In", "fields": [{"name": "x", "id": 0, "type": ("u", 8)}]})
+        desc["structs"].append({"name": "M", "fields": fields})
+        desc["impls"].append({"protocol": "can", "type": "M", "name": "M", "fields": [("id", rng.randrange(2048)), ("device", "ecu")], "signals": sigs})
+        desc["_big"] = True
+        return desc, target, False
     target = rng.choice([57, 60, 63, 64, 65, 66, 72, 80, 100, 128, 200, rng.randint(57, 200)])
     inner_fields = [{"name": "x", "id": 0, "type": ("u", rng.randint(1, 16))}, {"name": "y", "id": 1, "type": ("i", rng.randint(1, 16))}]
     desc["structs"].append({"name": "In", "fields": inner_fields})
@@ -124,6 +139,18 @@ def gen_desc(rng):
     return desc, target, var is not None
 
 
+def dbc_bits(s):
+    """The frame bits a DBC signal occupies (bit b of byte k is 8k + b).  Little-endian: start .. start+len-1.  Big-endian (@0): the start
+    bit is the most significant one; the signal runs down to bit 0 of its byte and goes on at bit 7 of the next byte."""
+    if not s["big"]:
+        return set(range(s["start"], s["start"] + s["len"]))
+    out, pos = set(), s["start"]
+    for _ in range(s["len"]):
+        out.add(pos)
+        pos = pos + 15 if pos % 8 == 0 else pos - 1
+    return out
+
+
 def c_signals(src):
     """(message, signal, start, len) from the decode macros of a generated *_can.c."""
     return [(m.group(1), int(m.group(2)), int(m.group(3)))
@@ -137,7 +164,7 @@ def run(chk):
     broken = chk.proof_obligations(["Corr/Dbc.vo", "Corr/Pipeline.vo"])
     chk.coverage["rule"] = (
         "one CAN-bound struct with a total of 57..200 bits (the excess in any field, nested struct or array) and, in a third of the cases, a "
-        "variable-size field at any position (also nested / inside an array), or the same nested struct reached two or three times with a total of 65..64+inner bits; run through fcp_dbc Generator.generate and through "
+        "variable-size field at any position (also nested / inside an array), or the same nested struct reached two or three times with a total of 65..64+inner bits, or (one in eight) sub-byte / unaligned fields declared big-endian in a message of 40..68 bits; run through fcp_dbc Generator.generate and through "
         "GeneratorManager.generate('can_c') on a pre-populated directory; outcomes compared in Coq with DbcModel and Pipeline+Verifier; "
         "non-trivial = total > 56 bits; distinct = schema text")
     dcases, pcases, meta, fails = [], [], [], []
@@ -173,14 +200,22 @@ def run(chk):
                     buses.append(cpair(cstr(r["bus"]), clist(cpair(cz(m["id"]), cstr(m["name"]), cz(m["dlc"]), clist(sig_term(s) for s in m["signals"].values())) for m in own.values())))
                     for m in own.values():
                         sigs = sorted(m["signals"].values(), key=lambda s: s["start"])
-                        for a, b in zip(sigs, sigs[1:]):
-                            if a["start"] + a["len"] > b["start"]:
-                                fails.append({"kind": "dbc-signals-overlap", "schema": text, "a": a, "b": b})
-                        if any(s["start"] + s["len"] > 8 * m["dlc"] for s in sigs) or m["dlc"] > 8:
+                        occ = [(s, dbc_bits(s)) for s in sigs]
+                        for i, (a, ba) in enumerate(occ):
+                            for b, bb in occ[i + 1:]:
+                                if ba & bb:
+                                    fails.append({"kind": "dbc-signals-overlap", "schema": text, "a": a, "b": b})
+                        if any(max(dbc_bits(s), default=0) >= 8 * m["dlc"] for s in sigs) or m["dlc"] > 8:
                             fails.append({"kind": "dbc-signal-beyond-message", "schema": text, "message": m})
                 obs = f"(Some {clist(buses)})"
             if must_reject and res is not None:
                 fails.append({"kind": "dbc-generated-for-unfit-message", "schema": text, "total_bits": total, "variable": has_var})
+            if desc.get("_big"):
+                # (the DBC model knows byte-aligned big-endian signals only; whether cantools accepts the others is not modelled: these
+                # schemas are judged by the predicates above - tested, not compared with the model)
+                chk.hist("big_endian_unaligned_schemas", "rejected" if res is None else "generated")
+                chk.count(text, nontrivial=True, sample={"schema": text, "total_bits": total, "dbc": "raises" if res is None else "files"})
+                continue
             ref = serde_run.parse(text).unwrap()      # the model is given the schema as written, not the object the generators held
             dcases.append(cpair(to_coq.schema(ref), clist(to_coq.impl(i) for i in ref.impls), obs, "[]"))
             # ---- the C generation command
